@@ -1236,7 +1236,7 @@ Definition with_error_handler (h : M unit) : M unit :=
   try h (fun r =>
     match r with
     | Err e =>
-        log [q_path req; q_rawquery req] ;;;
+        log [q_path req] ;;;   (* the path only: the query string of a mailed link carries its token *)
         (if c_err_writes cfg then write_resp (RespStatus 500) else ret tt) ;;;
         fail e
     | Ok a => ret a
